@@ -743,6 +743,9 @@ func (s *Service) ClientClose(client *ClientService) {
 				}
 			}
 
+			// remove the external c2 listeners this connection started
+			s.Teamserver.ListenerServiceExc2Remove(client)
+
 			// close client connection
 			if s.clients[i].Conn != nil {
 				err := s.clients[i].Conn.Close()
